@@ -19,7 +19,7 @@ from __future__ import annotations
 import ast
 
 from ..model import call_name, walk_no_nested
-from ..registry import rule
+from ..registry import anchor_props, rule
 
 FRESH_CALLS = {"dict", "list", "set", "defaultdict", "collections.defaultdict", "OrderedDict", "collections.OrderedDict"}
 MUTATORS = {"append", "extend", "update", "add", "setdefault", "insert", "pop", "remove", "clear", "discard"}
@@ -123,7 +123,7 @@ def _escapes(body_nodes, name, record_ctors):
 
 @rule(
     "LOOP-ALIAS",
-    ["C05", "C06", "C01", "C04", "C12"],
+    [f"C{i:02d}" for i in range(1, 21)],
     "a mutable container created before a loop, updated in place inside the loop and stored by reference into a per-iteration record "
     "(dict entry, attribute, appended element, record field) is one object shared by all records: every record ends up with the "
     "content of the last iteration; a copy at the store or a fresh container per iteration is required",
@@ -173,4 +173,4 @@ def loop_alias(repo, res):
                 n0, how = esc[0]
                 res.fail(key, f"`{name}` is created once at line {a.lineno}, before the loop at line {loop.lineno}, filled in place inside the loop "
                          f"(`{ast.unparse(muts[0]).splitlines()[0][:60]}`) and stored by reference per iteration ({how}, line {n0.lineno}): every record of this loop "
-                         "shares one object and shows what the last iteration wrote", m.line(n0))
+                         "shares one object and shows what the last iteration wrote", m.line(n0), props=tuple(sorted(anchor_props(m.name) or {"C12"})))
